@@ -131,7 +131,7 @@ class C11(Prop):
         if t is None:
             return "noitems"
         items, rest = t
-        return (tuple(items), rest.get("steps"), rest.get("ended"), rest.get("fused"), rest.get("sbytes"))
+        return (tuple(items), rest.get("steps"), rest.get("ended"), rest.get("fused"), rest.get("sbytes"), rest.get("towned"))
 
     def relation(self, ops, impl):
         out = []
@@ -148,7 +148,7 @@ class C11(Prop):
                 out.append(Violation("relation", op, il, None, "no item list"))
                 continue
             items, rest = t
-            if items != want or rest.get("ended") != "1" or rest.get("fused") != "1" or rest.get("sbytes") != "1" or int(rest.get("steps", -1)) != len(want):
+            if items != want or rest.get("ended") != "1" or rest.get("fused") != "1" or rest.get("sbytes") != "1" or rest.get("towned") != "1" or int(rest.get("steps", -1)) != len(want):
                 out.append(Violation("relation", op, il, None, "reference TLV walk is %r, ends and stays ended" % (want[:8],)))
             elif len(want) > len(sec) // 3 + 1:
                 out.append(Violation("relation", op, il, None, "more than n/3+1 items"))
